@@ -26,6 +26,10 @@ class _Inc(object):
     def _init(self):
         pass
 
+    def reset(self):
+        """documented: back to the initial state (an encoder writes its byte-order mark again, a decoder forgets pending bytes and the detected order)"""
+        self._init()
+
     def __getattr__(self, name):
         unmodelled_attr('incremental codec .', name)
 
@@ -255,6 +259,26 @@ def validate():
                 ro2 = [r.decode(data[:cut]), r.decode(data[cut:]), r.decode(b'', final=True)]
                 if mo != ro2:
                     return 'decoder %s on %r cut %d: %r vs %r' % (enc, data, cut, mo, ro2)
+            # reset(): the same text encoded twice through one object with a reset in between equals two fresh encodings; likewise for decoding
+            m = ENC[enc]()
+            r = _codecs.getincrementalencoder(enc)()
+            mo = [m.encode(s, True)]
+            ro = [r.encode(s, True)]
+            m.reset()
+            r.reset()
+            mo.append(m.encode(s, True))
+            ro.append(r.encode(s, True))
+            if mo != ro:
+                return 'encoder %s reset on %r: %r vs %r' % (enc, s, mo, ro)
+            m = DEC[enc]()
+            r = _codecs.getincrementaldecoder(enc)()
+            half = data[:len(data) // 2]
+            m.decode(half)
+            r.decode(half)
+            m.reset()
+            r.reset()
+            if m.decode(data, True) != r.decode(data, True):
+                return 'decoder %s reset on %r' % (enc, data)
             if len(s) == 2:
                 m = DEC[enc]()
                 r = _codecs.getincrementaldecoder(enc)()
